@@ -287,7 +287,9 @@ func (fgen *funcGen) irCallInst(new ir.Instruction, old *ast.CallInst) error {
 		panic(fmt.Errorf("invalid IR instruction for AST instruction; expected *ir.InstCall, got %T", new))
 	}
 	// Function arguments.
-	if strings.HasSuffix(strings.TrimSpace(old.Args().LlvmNode().Text()), "...") {
+	if args := strings.TrimSpace(old.Args().LlvmNode().Text()); args == "..." || (strings.HasSuffix(args, "...") && strings.HasSuffix(strings.TrimSpace(strings.TrimSuffix(args, "...")), ",")) {
+		// (the ellipsis is an argument of its own, behind a comma; a local name
+		// may end in dots: `i32* %x...`)
 		// The IR has no representation of the variadic arguments forwarded by
 		// a musttail call (`call ... @f(i32 %x, ...)`).
 		return errors.Errorf("support for forwarded variadic arguments ('...') in call to %q not yet implemented", old.Callee().LlvmNode().Text())
